@@ -109,6 +109,14 @@ static Verdict run_prog(const ProgCase &c) {
       return Verdict::pass();
     }
     if (op.event == EV_PROC) {
+      if (r.rc == 0 && (op.op == 0 || op.op == 1)) {
+        // the identifier (a descriptor number or the low half of an address) happens to be the pid of a live process on this
+        // machine: the registration is legitimate and owns exactly one process descriptor; firing behaviour of process
+        // events is part (c)'s subject, the rest of this program is not evaluated
+        PBT_REQUIRE(r.live_fds == live + 1, tag << ": successful process registration owns " << (long)r.live_fds - (long)live << " descriptors");
+        label("proc_cookie_is_a_live_pid");
+        return Verdict::pass();
+      }
       // no such process behind the cookie: must fail and leave nothing behind
       PBT_REQUIRE(r.live_fds == live, tag << ": failed process registration left a descriptor");
       label("proc_on_bad_pid");
